@@ -116,3 +116,10 @@ CLAIMS["C11"] = {
     "note": "The stage's single event loop serialises arrivals and completions; the harness relies on its unbuffered channels for hand-off and uses progress waits (30 s) only for deliveries made on goroutines the stage spawns.",
     "technique": "stateful property-based testing (rapid state machine) against a parked-state model",
 }
+
+CLAIMS["C12"] = {
+    "text": "A rapid state machine drives a real CachedCloudProvider (batch limit 1/2/5) with a scripted provider (full, partial, empty, error-with-partial-data per call) and a harness-owned refresh ticker: submissions of 1..3 sources (duplicates allowed), Peeks, refresh ticks at real-now + k*10 min and stats emissions. "
+            "Checked: every submitted source reaches the provider within the batch limit; the multiset of answers on InfoSource equals the (source, result) pairs of all provider calls, client-requested or refresh-started; Peek agrees with a cache model in which a failed or empty refresh keeps the resolved instance; a tick queries exactly the entries past their (negative) TTL and evicts entries past the idle period; cache_positive/cache_negative equal the model's counts. Exploration.",
+    "note": "Assumes the stated >= 5 min margin between tick times and TTL/idle boundaries because the implementation reads time.Now() for expiry and last access (not injectable without rewriting existing lines); per-entry idle ages and equality boundaries are therefore not explored.",
+    "technique": "stateful property-based testing (rapid state machine) against a cache model with scripted provider outcomes",
+}
